@@ -1,7 +1,7 @@
 (* C04 - binary upload transmits exactly the source bytes, then signals end-of-file.
    Part 1 (here): the loop of data_connection::send. Part 2: the order "close the data connection, then wait for
    the completion reply" is a property of the protocol programs (finish_transfer in Client.v), stated below. *)
-From LibFtp Require Import Bytes Reply Endpoint Ascii DataConn DataConn_Proofs Client Client_Proofs Login_Proofs Transfer_Proofs.
+From LibFtp Require Import Bytes Reply Endpoint Ascii DataConn DataConn_Proofs Client Client_Proofs Login_Proofs Transfer_Proofs Transfer_More.
 Local Open Scope N_scope.
 
 (* whatever chunks the source hands out (any pattern of short reads), an upload that runs to its end writes exactly the
@@ -50,3 +50,41 @@ Print Assumptions C04_upload_end_to_end.
 Example C04_example :
   let '(ev, r, _) := data_send TBinary 4 [[1]; [2;3]; [4;5;6]] None in net_out_bytes ev = [1;2;3;4;5;6] /\ r = PDone.
 Proof. vm_compute. auto. Qed.
+
+(* the whole upload over TLS (passive modes): the data connection is wrapped after the transfer command was accepted, the source bytes go out, close-notify and close come before the completion reply is read *)
+Theorem C04_upload_over_tls : forall w u path chunks r1 r2 rest x1 x2 x3 ip port,
+  insync w (r1 :: r2 :: rest) -> w_data w = None ->
+  c_mode (w_cfg w) = Passive -> c_tls (w_cfg w) = true ->
+  has_crlf path = false ->
+  simple_reaction r1 x1 -> is_negative x1 = false -> passive_target (w_cfg w) x1 ip port ->
+  dp_reachable (r_data r1) = true ->
+  accepts_transfer r2 x2 x3 ->
+  dp_tls_ok (r_data r2) = true -> dp_shutdown_ok (r_data r2) = true ->
+  exists w', step w (AUpload u path chunks None) = (OReturn (RvReplies [x1; x2; x3]), w') /\
+    insync w' rest /\ w_data w' = None /\ w_cfg w' = w_cfg w /\
+    net_out_bytes (io_events (skipn (length (w_trace w)) (w_trace w'))) = sent (c_type (w_cfg w)) chunks /\
+    wire_events (skipn (length (w_trace w)) (w_trace w')) =
+      [WLine (setup_line (w_cfg w)); WReply x1; WLine (upverb_bytes u ++ SP :: path); WReply x2; WReply x3] /\
+    data_events (skipn (length (w_trace w)) (w_trace w')) =
+      [DNewObj; DConnectTo ip port true;
+       DHandshake (if c_resume (w_cfg w) then Some (w_sess_id w) else None) true;
+       DTlsShutdown true; DTcpShutdown; DClose].
+Proof. exact upload_passive_complete_tls. Qed.
+Print Assumptions C04_upload_over_tls.
+
+(* the whole upload in the active modes (EPRT / PORT): listen, advertise, transfer command, accept one connection, send, close socket and listener, then the completion reply *)
+Theorem C04_upload_active : forall w u path chunks r1 r2 rest x1 x2 x3 line,
+  insync w (r1 :: r2 :: rest) -> w_data w = None ->
+  c_mode (w_cfg w) = Active -> c_tls (w_cfg w) = false ->
+  has_crlf path = false -> adv_cmd w = Some line ->
+  simple_reaction r1 x1 -> is_negative x1 = false ->
+  accepts_transfer r2 x2 x3 -> dp_reachable (r_data r2) = true ->
+  exists w', step w (AUpload u path chunks None) = (OReturn (RvReplies [x1; x2; x3]), w') /\
+    insync w' rest /\ w_data w' = None /\ w_cfg w' = w_cfg w /\
+    net_out_bytes (io_events (skipn (length (w_trace w)) (w_trace w'))) = sent (c_type (w_cfg w)) chunks /\
+    wire_events (skipn (length (w_trace w)) (w_trace w')) =
+      [WLine line; WReply x1; WLine (upverb_bytes u ++ SP :: path); WReply x2; WReply x3] /\
+    data_events (skipn (length (w_trace w)) (w_trace w')) =
+      [DNewObj; DListen; DAcceptOk; DTcpShutdown; DClose; DAccClose].
+Proof. exact upload_active_complete. Qed.
+Print Assumptions C04_upload_active.
